@@ -355,9 +355,6 @@ fn constants_cases() -> Vec<(&'static str, Box<dyn Fn() -> Result<(), String> + 
             let g = crt::G2Affine::one();
             if aff_m::<G2m>(&g) == refmodel::curve::g2_gen() { Ok(()) } else { Err("G2Affine::one() is not the documented generator".into()) }
         })),
-        ("multiplicative generators 2 and 7", Box::new(|| {
-            if val(&crt::Fq::multiplicative_generator()) == Z::from(2u32) && val(&crt::Fr::multiplicative_generator()) == Z::from(7u32) { Ok(()) } else { Err("multiplicative_generator".into()) }
-        })),
     ]
 }
 
@@ -395,7 +392,7 @@ pub fn def() -> PropDef {
             Box::new(Sub { name: "fr-ops", rule: "Fr, same operations vs integers mod r", quick: 200_000, thorough: 2_000_000, strategy: || boxed(ops_strategy(4)), check: check_fr_ops }),
             Box::new(Sub { name: "fq-repr", rule: "FqRepr as 384-bit unsigned integer: from_repr range, add_nocarry/sub_noborrow within preconditions, shr/shl/div2/mul2, num_bits, parity, cmp, From<u64>, be/le I/O", quick: 300_000, thorough: 3_000_000, strategy: || boxed(repr_case_strategy(6)), check: check_fq_repr }),
             Box::new(Sub { name: "fr-repr", rule: "FrRepr as 256-bit unsigned integer, same operations", quick: 300_000, thorough: 3_000_000, strategy: || boxed(repr_case_strategy(4)), check: check_fr_repr }),
-            Box::new(EnumSub { name: "constants", rule: "hard-coded constants observed through behaviour: char(), NUM_BITS, one/zero, documented generator coordinates, multiplicative generators (enumerated)", run: run_constants, replay: replay_constants, exhaustive: true }),
+            Box::new(EnumSub { name: "constants", rule: "hard-coded constants observed through behaviour: char(), NUM_BITS, one/zero, documented generator coordinates (enumerated)", run: run_constants, replay: replay_constants, exhaustive: true }),
             super::corpus_sub_field(),
         ],
         assumptions: {
